@@ -1,12 +1,310 @@
-// Package c01: correspondence harness of C01 (stub: replaced when C01 is built).
+// Package c01: successful generation yields a complete, type-correct package.
+//
+// (A) every type shape x each type-recursive plugin: goderive + go vet on a singleton package,
+//     compared with the model's support predicates (eval01);
+// (B) call-site forms (function body, package-level var, closure, nested derive call, _test
+//     file, curried form) over a sample of types;
+// (C) the functional plugins in their documented signature forms over several element types;
+// (D) imported types from two packages with the same name, unexported fields.
 package c01
 
 import (
 	"fmt"
+	"os"
+	"path/filepath"
+	"strings"
 
+	"verifharness/internal/ga"
 	"verifharness/internal/hx"
 )
 
+type group struct {
+	name  string
+	calls []ga.Call
+}
+
+var groups = []group{
+	{"equal", []ga.Call{ga.CallEq, ga.CallEqC}},
+	{"compare", []ga.Call{ga.CallCmp, ga.CallCmpC}},
+	{"hash", []ga.Call{ga.CallHash}},
+	{"deepcopy", []ga.Call{ga.CallDC}},
+	{"clone", []ga.Call{ga.CallClone}},
+	{"gostring", []ga.Call{ga.CallGS}},
+}
+
 func Run(cfg hx.Config) (*hx.Meta, error) {
-	return nil, fmt.Errorf("C01: harness not built yet")
+	meta := &hx.Meta{Property: "C01", Seed: cfg.Seed, Tier: cfg.Tier}
+	r := hx.NewRand(cfg.Seed)
+	cat := ga.NewCatalogue()
+	var types []*ga.Type
+	if cfg.Tier == "thorough" {
+		types = cat.Shapes(r, 2, 400)
+	} else {
+		types = cat.Shapes(r, 1, 30)
+		d2 := cat.Shapes(r, 2, 0)
+		hx.Shuffle(r, d2)
+		types = ga.Dedup(append(types, d2[:50]...))
+	}
+	// (D) both imported packages (same package name) in one type, pointer chains
+	types = ga.Dedup(append(types,
+		ga.St(cat.E1, cat.E2), ga.P(ga.St(ga.P(cat.E3), cat.E2)), ga.M(cat.E3, ga.Sl(cat.E1)), ga.Sl(ga.P(cat.E2)),
+		ga.P(ga.P(cat.S0)), ga.P(ga.P(ga.B("int"))), ga.M(ga.B("string"), ga.Ar(2, ga.P(ga.B("int")))), ga.P(cat.Rec), ga.P(cat.MA), ga.P(cat.SP), ga.P(cat.E1)))
+	var obs strings.Builder
+	for gi, g := range groups {
+		probes := ga.Probe(cfg.Goderive, filepath.Join(cfg.Work, fmt.Sprintf("probe-%s", g.name)), types, g.calls, true)
+		for i, t := range types {
+			pr := probes[i]
+			meta.GoderiveRuns++
+			vet := 0
+			if pr.VetOK {
+				vet = 1
+			}
+			fmt.Fprintf(&obs, "(gen %s %s %s %d)\n", g.name, t.Sexp(), pr.GenClass, vet)
+			meta.Count("gen/" + g.name + "/" + pr.GenClass + fmt.Sprintf("/vet=%d", vet))
+			if pr.GenClass == "ok" && !pr.VetOK {
+				// keep what is needed to replay
+				_ = os.MkdirAll(filepath.Join(cfg.Out, "failing"), 0o755)
+				_ = os.WriteFile(filepath.Join(cfg.Out, "failing", fmt.Sprintf("%s-%03d.txt", g.name, i)),
+					[]byte(t.Go(0)+"\n"+pr.VetOut+"\n"), 0o644)
+			}
+			if gi == 0 && i < 3 {
+				meta.Sample(fmt.Sprintf("(gen %s %s %s %d)", g.name, hx.Truncate(t.Sexp(), 160), pr.GenClass, vet))
+			}
+		}
+	}
+	of := filepath.Join(cfg.Out, "c01-gen.obs")
+	if err := os.WriteFile(of, []byte(obs.String()), 0o644); err != nil {
+		return nil, err
+	}
+	meta.ObsFiles = append(meta.ObsFiles, of)
+
+	callsites(cfg, meta, cat, r)
+	functional(cfg, meta, cat)
+	return meta, nil
+}
+
+// ---------- (B) call-site forms ----------
+
+type form struct {
+	name string
+	// file name and source for element type T (Go spelling), using derive names unique per form
+	src func(tgo string, zero string) (file string, text string)
+}
+
+var forms = []form{
+	{"function-body", func(t, z string) (string, string) {
+		return "f_body.go", "package main\n\nfunc body(a, b " + t + ") bool { return deriveEqualBody(a, b) }\n"
+	}},
+	{"package-level-var", func(t, z string) (string, string) {
+		return "f_var.go", "package main\n\nvar pkgA, pkgB " + t + "\n\nvar pkgEq = deriveEqualVar(pkgA, pkgB)\n\nvar pkgHash = deriveHashVar(pkgA)\n"
+	}},
+	{"closure", func(t, z string) (string, string) {
+		return "f_closure.go", "package main\n\nvar clo = func(a, b " + t + ") int { return func() int { return deriveCompareClo(a, b) }() }\n"
+	}},
+	{"nested-derive-call", func(t, z string) (string, string) {
+		return "f_nested.go", "package main\n\nfunc nested(m map[string]" + t + ", a " + t + ") ([]string, bool) {\n\treturn deriveSortN(deriveKeysN(m)), deriveEqualN(deriveCloneN(a), a)\n}\n"
+	}},
+	{"test-file", func(t, z string) (string, string) {
+		return "f_x_test.go", "package main\n\nfunc inTest(a " + t + ") uint64 { return deriveHashT(a) }\n"
+	}},
+	{"curried-one-argument", func(t, z string) (string, string) {
+		return "f_curried.go", "package main\n\nfunc curried(a, b " + t + ") (bool, int) { return deriveEqualCur(a)(b), deriveCompareCur(a)(b) }\n"
+	}},
+	{"method-body-and-struct-literal", func(t, z string) (string, string) {
+		return "f_method.go", "package main\n\ntype holder struct{ v " + t + " }\n\nfunc (h *holder) same(o *holder) bool { return deriveEqualM(h.v, o.v) }\n\nvar table = map[string]func(" + t + ") uint64{\"h\": func(a " + t + ") uint64 { return deriveHashM(a) }}\n"
+	}},
+}
+
+func callsites(cfg hx.Config, meta *hx.Meta, cat *ga.Catalogue, r *hx.Rand) {
+	sample := []*ga.Type{ga.B("int"), ga.B("string"), cat.S0, ga.P(cat.S0), ga.P(cat.SP), ga.Sl(ga.B("int")), ga.M(ga.B("string"), ga.P(ga.B("int"))),
+		ga.P(cat.Rec), ga.P(cat.E1), cat.NInt, ga.Ar(2, ga.Sl(ga.B("string"))), ga.P(cat.MA)}
+	if cfg.Tier == "thorough" {
+		for i := 0; i < 40; i++ {
+			sample = append(sample, cat.Random(r, 3))
+		}
+	}
+	type job struct {
+		t *ga.Type
+		f form
+	}
+	var jobs []job
+	for _, t := range sample {
+		for _, f := range forms {
+			jobs = append(jobs, job{t, f})
+		}
+	}
+	hx.Parallel(len(jobs), 16, func(i int) {
+		j := jobs[i]
+		// only types every plugin used by the forms accepts: named structs are compared through pointers by the probes above
+		dir := filepath.Join(cfg.Work, fmt.Sprintf("site%04d", i))
+		p := &ga.Pkg{Dir: dir, Types: []*ga.Type{j.t}, Idx: []int{0}, Calls: nil, Extra: map[string]string{}}
+		file, text := j.f.src(j.t.Go(0), "")
+		// imports for external types
+		ext := map[int]bool{}
+		j.t.UsesExt(ext)
+		if len(ext) > 0 {
+			var imp strings.Builder
+			imp.WriteString("import (\n")
+			for _, e := range []int{1, 2} {
+				if ext[e] {
+					fmt.Fprintf(&imp, "\t%s %q\n", map[int]string{1: "ext", 2: "ext2"}[e], ga.ExtPaths[e])
+				}
+			}
+			imp.WriteString(")\n\n")
+			text = strings.Replace(text, "package main\n\n", "package main\n\n"+imp.String(), 1)
+		}
+		p.Extra[file] = text
+		p.Extra["main.go"] = "package main\n\nfunc main() {}\n"
+		if err := p.Write(); err != nil {
+			meta.AddDirect(hx.Direct{Class: "c01-harness", What: err.Error()})
+			return
+		}
+		os.Remove(filepath.Join(dir, "rt.go"))
+		os.Remove(filepath.Join(dir, "reg.go"))
+		g := p.Generate(cfg.Goderive)
+		metaCount(meta, "callsite/"+j.f.name+"/"+ga.ClassifyGoderive(g))
+		cls := ga.ClassifyGoderive(g)
+		if cls == "generator-error" {
+			return // the type is outside some plugin's supported set (e.g. unnamed struct for compare)
+		}
+		if cls != "ok" {
+			if cls == "panic" || cls == "timeout" {
+				return // C09
+			}
+			meta.AddDirect(hx.Direct{Class: "c01-callsite-" + j.f.name, What: "goderive fails (" + cls + ") for a " + j.f.name + " call site with " + j.t.Go(0),
+				Files: map[string]string{file: text}, Cmd: "goderive .", Output: hx.Truncate(g.Out, 2000)})
+			return
+		}
+		v := hx.GoVet(dir, "", "./...")
+		if v.Exit != 0 {
+			meta.AddDirect(hx.Direct{Class: "c01-callsite-" + j.f.name, What: "generated package does not type-check for a " + j.f.name + " call site with " + j.t.Go(0),
+				Files: map[string]string{file: text, "derived.gen.go": p.Derived()}, Cmd: "goderive . && go vet ./...", Output: hx.Truncate(v.Out, 2000)})
+			return
+		}
+		fm := hx.Run(dir, 60e9, 0, hx.GoEnv(), "gofmt", "-l", "derived.gen.go")
+		if strings.TrimSpace(fm.Stdout) != "" {
+			metaCount(meta, "gofmt-l/not-formatted")
+		} else {
+			metaCount(meta, "gofmt-l/formatted")
+		}
+	})
+}
+
+func metaCount(m *hx.Meta, k string) { m.CountSafe(k) }
+
+// ---------- (C) functional plugins in their documented forms ----------
+
+func functionalSource(t string, comparable, ordered, gostring, minmax bool) string {
+	var b strings.Builder
+	w := func(s string) { b.WriteString(strings.ReplaceAll(s, "@T", t) + "\n") }
+	b.WriteString("package main\n\n")
+	w("func useKeys(m map[string]@T) []string { return deriveKeys(m) }")
+	w("func useContains(l []@T, x @T) bool { return deriveContains(l, x) }")
+	w("func useUnique(l []@T) []@T { return deriveUnique(l) }")
+	w("func useUnion(a, b []@T) []@T { return deriveUnion(a, b) }")
+	w("func useIntersect(a, b []@T) []@T { return deriveIntersect(a, b) }")
+	w("func useFilter(p func(@T) bool, l []@T) []@T { return deriveFilter(p, l) }")
+	w("func useTakeWhile(p func(@T) bool, l []@T) []@T { return deriveTakeWhile(p, l) }")
+	w("func useAll(p func(@T) bool, l []@T) bool { return deriveAll(p, l) }")
+	w("func useAny(p func(@T) bool, l []@T) bool { return deriveAny(p, l) }")
+	w("func useFmap(f func(@T) string, l []@T) []string { return deriveFmap(f, l) }")
+	w("func useFmapErr(f func(@T) string, g func() (@T, error)) (string, error) { return deriveFmapE(f, g) }")
+	w("func useJoin(l [][]@T) []@T { return deriveJoin(l) }")
+	w("func useJoinErr(f func() (@T, error), err error) (@T, error) { return deriveJoinE(f, err) }")
+	w("func useJoinChan(c <-chan (<-chan @T)) <-chan @T { return deriveJoinC(c) }")
+	w("func useJoinChans(c []<-chan @T) <-chan @T { return deriveJoinS(c) }")
+	w("func useFmapChan(f func(@T) string, c <-chan @T) <-chan string { return deriveFmapC(f, c) }")
+	w("func useCurry(f func(a @T, b string, c int) bool) func(@T) func(string, int) bool { return deriveCurry(f) }")
+	w("func useUncurry(f func(a @T) func(b string) bool) func(@T, string) bool { return deriveUncurry(f) }")
+	w("func useFlip(f func(a @T, b string) bool) func(string, @T) bool { return deriveFlip(f) }")
+	w("func useApply(f func(a string, b @T) bool, x @T) func(string) bool { return deriveApply(f, x) }")
+	w("func useTuple(a @T, b string) func() (@T, string) { return deriveTuple(a, b) }")
+	w("func useCompose(f func(@T) (string, error), g func(string) (@T, error)) func(@T) (@T, error) { return deriveCompose(f, g) }")
+	w("func useCompose3(f func() (@T, error), g func(@T) (int, string, error), h func(int, string) (@T, error)) func() (@T, error) { return deriveCompose3(f, g, h) }")
+	w("func useMem(f func(@T) string) func(@T) string { return deriveMem(f) }")
+	w("func useMem2(f func(a @T, b int) (@T, error)) func(@T, int) (@T, error) { return deriveMem2(f) }")
+	w("func useTraverse(f func(@T) (string, error), l []@T) ([]string, error) { return deriveTraverse(f, l) }")
+	w("func useToError(e error, f func(@T) (string, bool)) func(@T) (string, error) { return deriveToError(e, f) }")
+	w("func useDo(f func() (@T, error), g func() (string, error)) (@T, string, error) { return deriveDo(f, g) }")
+	w("func useDup(c <-chan @T) (<-chan @T, <-chan @T) { return deriveDup(c) }")
+	w("func usePipeline(f func(string) <-chan @T, g func(@T) <-chan int) func(string) <-chan int { return derivePipeline(f, g) }")
+	w("func useClone(a @T) @T { return deriveClone(a) }")
+	if gostring {
+		w("func useGoString(a @T) string { return deriveGoString(a) }")
+	}
+	w("func useHash(a @T) uint64 { return deriveHash(a) }")
+	w("func useEqual(a, b @T) bool { return deriveEqual(a, b) }")
+	if comparable {
+		w("func useSet(l []@T) map[@T]struct{} { return deriveSet(l) }")
+		w("func useUnionSet(a, b map[@T]struct{}) map[@T]struct{} { return deriveUnionS(a, b) }")
+		w("func useIntersectSet(a, b map[@T]struct{}) map[@T]struct{} { return deriveIntersectS(a, b) }")
+		w("func useKeysT(m map[@T]int) []@T { return deriveKeysT(m) }")
+	}
+	if ordered {
+		w("func useSort(l []@T) []@T { return deriveSort(l) }")
+		if minmax {
+			// min/max use the < operator on basic types: bool and complex are unordered (C09's subject)
+			w("func useMin(l []@T, d @T) @T { return deriveMin(l, d) }")
+			w("func useMax(l []@T, d @T) @T { return deriveMax(l, d) }")
+			w("func useMin2(a, b @T) @T { return deriveMin2(a, b) }")
+			w("func useMax2(a, b @T) @T { return deriveMax2(a, b) }")
+		}
+		w("func useCompare(a, b @T) int { return deriveCompare(a, b) }")
+	}
+	b.WriteString("\nfunc main() {}\n")
+	return b.String()
+}
+
+func functional(cfg hx.Config, meta *hx.Meta, cat *ga.Catalogue) {
+	type et struct {
+		t                   *ga.Type
+		comparable, ordered bool
+	}
+	ets := []et{
+		{ga.B("int"), true, true}, {ga.B("string"), true, true}, {ga.B("float64"), true, true}, {ga.B("bool"), true, true},
+		{cat.NInt, true, true}, {cat.NStr, true, true}, {cat.S0, true, true}, {ga.P(cat.S0), false, true}, {ga.P(cat.SP), false, true},
+		{ga.Sl(ga.B("int")), false, true}, {ga.M(ga.B("string"), ga.B("int")), false, true}, {ga.Ar(2, ga.B("string")), true, true},
+		{ga.P(cat.E1), false, true}, {cat.E3, true, true}, {ga.P(cat.Rec), false, true}, {cat.NSl, false, true}, {ga.P(ga.B("int")), false, true},
+	}
+	hx.Parallel(len(ets), 16, func(i int) {
+		e := ets[i]
+		dir := filepath.Join(cfg.Work, fmt.Sprintf("func%03d", i))
+		src := functionalSource(e.t.Go(0), e.comparable, e.ordered, e.t != ets[12].t, e.t.Go(0) != "bool")
+		ext := map[int]bool{}
+		e.t.UsesExt(ext)
+		if len(ext) > 0 {
+			var imp strings.Builder
+			imp.WriteString("import (\n")
+			for _, x := range []int{1, 2} {
+				if ext[x] {
+					fmt.Fprintf(&imp, "\t%s %q\n", map[int]string{1: "ext", 2: "ext2"}[x], ga.ExtPaths[x])
+				}
+			}
+			imp.WriteString(")\n\n")
+			src = strings.Replace(src, "package main\n\n", "package main\n\n"+imp.String(), 1)
+		}
+		p := &ga.Pkg{Dir: dir, Types: []*ga.Type{e.t}, Idx: []int{0}, Extra: map[string]string{"use.go": src}}
+		if err := p.Write(); err != nil {
+			meta.AddDirect(hx.Direct{Class: "c01-harness", What: err.Error()})
+			return
+		}
+		os.Remove(filepath.Join(dir, "rt.go"))
+		os.Remove(filepath.Join(dir, "reg.go"))
+		g := p.Generate(cfg.Goderive)
+		cls := ga.ClassifyGoderive(g)
+		metaCount(meta, "functional/"+cls)
+		if cls == "panic" || cls == "timeout" {
+			return // C09
+		}
+		if cls != "ok" {
+			meta.AddDirect(hx.Direct{Class: "c01-functional", What: "goderive fails (" + cls + ") on the functional plugins over element type " + e.t.Go(0),
+				Files: map[string]string{"use.go": src}, Cmd: "goderive .", Output: hx.Truncate(g.Out, 2000)})
+			return
+		}
+		v := hx.GoVet(dir, "", "./...")
+		if v.Exit != 0 {
+			meta.AddDirect(hx.Direct{Class: "c01-functional", What: "functional plugins over element type " + e.t.Go(0) + ": generated package does not type-check",
+				Files: map[string]string{"use.go": src, "derived.gen.go": p.Derived()}, Cmd: "goderive . && go vet ./...", Output: hx.Truncate(v.Out, 2500)})
+		}
+	})
 }
